@@ -334,6 +334,63 @@ BAD_NAMES = ['zz', 'k_9', 'Ab', 'x', 'W']
 BAD_FUNCS = ['sin(A)', 'floor(A)', 'A > 2', 'cos(k_1)*A', 'tan(A) + 1', 'sqrt(A) + foo(A)', 'Piecewise((1, A > 2), (0, True))']
 
 
+def sim_route(c, item):
+    """trees that mention the volume (and not the time), as the right-hand side of an assignment rule of a reaction-free model, through
+    the simulators themselves: deterministic / SSA / delay runs read volume = 1, volume and delay+volume runs read the volume given"""
+    import warnings
+    from bioscrape.types import Model
+    from bioscrape.simulator import py_simulate_model
+    tr = EX.totuple(item)
+    text = EX.render(tr)
+    conf = CONFIGS['cfg1']
+    pt = POINTS[item_point(tr)]
+    c.count('states')
+    plist = [(p_, pt[p_]) for p_ in conf['params']] + [('_p', pt['p'])]
+    try:
+        with warnings.catch_warnings():
+            warnings.simplefilter('ignore')
+            m = Model(species=list(conf['species']) + ['Z'], reactions=[], parameters=plist, rules=[('assignment', {'equation': 'Z = ' + text})],
+                      initial_condition_dict={s_: pt[s_] for s_ in conf['species']})
+    except Exception:
+        c.count('rejected_model')
+        return
+    times = np.array([0.0, 0.25, 0.5])
+    zi = m.get_species_list().index('Z')
+    ok = False
+    for mode, kw, V in (('det', dict(stochastic=False), None), ('ssa', dict(stochastic=True), None), ('delay', dict(stochastic=True, delay=True), None),
+                        ('volume', dict(stochastic=True, volume=2.0), 2.0), ('delayvol', dict(stochastic=True, delay=True, volume=2.0), 2.0),
+                        ('volume', dict(stochastic=True, volume=0.5), 0.5), ('delayvol', dict(stochastic=True, delay=True, volume=0.5), 0.5)):
+        track = []
+        try:
+            v = EX.ev(tr, env_for(pt), 0.0, 1.0 if V is None else V, track)
+        except (EX.Undefined, OverflowError, ZeroDivisionError, ValueError):
+            continue
+        if not math.isfinite(v) or any(k_ == 'step' and abs(a_) < 1e-3 for k_, a_ in track):
+            continue
+        scale = max([abs(v)] + [abs(a_) for _, a_ in track if isinstance(a_, float) and math.isfinite(a_)] + [1.0])
+        try:
+            with warnings.catch_warnings():
+                warnings.simplefilter('ignore')
+                res = py_simulate_model(times, Model=m, return_dataframe=False, **kw)
+            col = [float(r_[zi]) for r_ in res.py_get_result()]
+        except Exception as e:
+            c.violation('C02/value/%s/simulated-rule/%s' % (opkey(tr), mode), 'simulating a model whose rule is Z = %s raised %r' % (text, e), dict(tree=tr, text=text, route='sim', sim=True))
+            return
+        c.count('evaluations', len(col)); c.count('transitions', len(col))
+        ok = True
+        for k_, got in enumerate(col):
+            if not math.isfinite(got) or abs(got - v) > 1e-9 * (1.0 + scale):
+                c.violation('C02/value/%s/simulated-rule/%s' % (opkey(tr), mode), 'row %d of a %s run (volume %s) reports Z = %r for the rule Z = %s, the formula gives %r' % (
+                    k_, mode, V, got, text, v), dict(tree=tr, text=text, route='sim', sim=True))
+                return
+    if ok:
+        c.nontrivial('sim:' + text)
+
+
+def item_point(tr):
+    return 0
+
+
 def check_reject(c, item):
     """an unknown name or an unsupported function must be rejected when the model is built"""
     import warnings
@@ -371,7 +428,35 @@ def check_reject(c, item):
         term = m.parse_general_expression(text)
         st = np.array([POINTS[0][s] for s in m.get_species_list()])
         return term.py_evaluate(st, m.get_parameter_values(), 0.0)
+    def via_extension(how):
+        # a model that was valid (and already simulated) is extended by a rule / reaction with the bad expression: EVERY later attempt
+        # to build it must be rejected (two simulations and one interface), not only the first
+        def f():
+            from bioscrape.simulator import py_simulate_model, ModelCSimInterface
+            m = Model(species=list(conf['species']), reactions=[(['A'], [], 'massaction', {'k': 'k_1'})], parameters=plist, initial_condition_dict=ic)
+            py_simulate_model(np.linspace(0, 1, 3), Model=m, stochastic=False, return_dataframe=False)
+            try:
+                if how == 'rule':
+                    m.create_rule('assignment', {'equation': 'x2 = ' + text})
+                else:
+                    m.create_reaction([], ['x2'], 'general', {'rate': text})
+            except Exception:
+                raise            # rejected at the edit itself: fine
+            accepted = []
+            for k_, g in enumerate((lambda: py_simulate_model(np.linspace(0, 1, 3), Model=m, stochastic=False, return_dataframe=False).py_get_result()[-1].tolist(),
+                                    lambda: py_simulate_model(np.linspace(0, 1, 3), Model=m, stochastic=True, return_dataframe=False).py_get_result()[-1].tolist(),
+                                    lambda: ModelCSimInterface(m) and 'interface built')):
+                try:
+                    accepted.append((k_, g()))
+                except Exception:
+                    pass
+            if accepted:
+                return 'build attempts %s were accepted: %s' % ([a_[0] for a_ in accepted], accepted[0][1])
+            raise ValueError('every build attempt was rejected')
+        return f
     attempt('parse_expression', via_parse)
+    attempt('extension-rule', via_extension('rule'))
+    attempt('extension-reaction', via_extension('reaction'))
     attempt('general-propensity', via_model)
     attempt('assignment-rule', via_rule)
     attempt('parse_general_expression', via_pge)
@@ -411,6 +496,8 @@ def run(ctx):
         routes = d in ('d0', 'd1') or ctx.tier == 'thorough' or i % 3 == 0
         items.append((d, tr, routes))
     pmap(check_tree, items, ctx, nshards=256)
+    simt = [tr for d_, tr in tl if d_ in ('d0', 'd1') and "('vol',)" in repr(EX.totuple(tr)) and "('t',)" not in repr(EX.totuple(tr))]
+    pmap(sim_route, simt, ctx, nshards=64)
     rej = reject_items(ctx.tier)
     pmap(check_reject, rej, ctx, nshards=64)
     seen = ctx.notes.get('seen_by_operator', {})
@@ -418,7 +505,7 @@ def run(ctx):
     if sum(acc.values()) * 2 < sum(seen.values()):
         ctx.harness_error('fewer than half of the in-signature trees were accepted by the parser: %s of %s' % (acc, seen))
     ctx.exhaustive = False
-    ctx.bounds = dict(trees=len(tl), reject_cases=len(rej), trees_by_depth=ctx.notes.get('trees_by_depth'),
+    ctx.bounds = dict(trees=len(tl), simulated_rule_trees=len(simt), reject_cases=len(rej), trees_by_depth=ctx.notes.get('trees_by_depth'),
                       exhaustive_depths='depth 0-1 over the full leaf set (22 leaves incl. both spellings of the leading-underscore parameter, '
                       't, volume) and both species/parameter splits; depth 2 over a reduced leaf set (thorough: full signature; quick: one '
                       'compound argument); depth 3 (thorough) over leaves {A, 2} with one compound argument (binary operators: every third depth-2 subtree); depths 3-5 by systematic nesting '
@@ -429,13 +516,15 @@ def run(ctx):
                 'parse_expression (evaluate and volume_evaluate), a general propensity, Model.parse_general_expression, an assignment rule '
                 '(plain and volume form) and a StateDependentVolume growth law, at 36 evaluation points; compared with a plain recursive '
                 'evaluator wherever every subterm is finite and Heaviside arguments are >= 1e-3 from 0 (tolerance 1e-9*(1+max|subterm|)). '
-                'Rejection: trees with one identifier replaced by an unknown name, and unsupported functions, must raise on every route. '
+                'Every depth<=1 tree that mentions the volume (and not the time) is also the rule of a reaction-free model run through the deterministic, SSA, delay, volume and delay+volume simulators (volume 2 and 0.5): every row must carry the formula\'s value, volume reading 1 where no volume is in play. Rejection: trees with one identifier replaced by an unknown name, and unsupported functions, must raise on every route, and a model that was valid, was simulated and is then extended by such a rule or reaction must be rejected at every later build attempt. '
                 'states = trees; a tree is non-trivial when it is accepted and defined at >= 1 point; distinct by rendered text.')
     ctx.assumptions = ['a rejection of a well-formed tree is not a violation (the property constrains accepted expressions)',
                        'the leading-underscore spelling _p / |p denotes parameter p (model routes define p and _p with the same value)']
 
 
 def replay(ctx, case):
+    if case.get('sim'):
+        return sim_route(ctx, EX.totuple(case['tree']))
     if case.get('kind'):
         check_reject(ctx, (case['kind'], case['text'], case.get('tree')))
     else:
